@@ -466,6 +466,12 @@ fn check_text_routes_inner(t: &str) -> Result<(), String> {
     tls_eq(&t.escape_debug(), "str::EscapeDebug")?;
     tls_eq(&std::net::Ipv4Addr::new(t.len() as u8, 0, 255, 1), "Ipv4Addr")?;
     tls_eq(&std::num::Wrapping(t.len() as u64 * 1_000_000_007), "Wrapping<u64>")?;
+    tls_eq(&std::rc::Rc::<str>::from(t), "Rc<str>")?;
+    tls_eq(&std::sync::Arc::new(t.to_string()), "Arc<String>")?;
+    tls_eq(&&t, "&&str")?;
+    tls_eq(&&t.to_string(), "&String (generic arm)")?;
+    tls_eq(&std::path::Path::new(t).display(), "path::Display")?;
+    tls_eq(&t.chars().rev().collect::<String>().to_uppercase(), "String (uppercased, reversed)")?;
     // LeanStrings in several storage states
     let direct = LeanString::from(t);
     tls_eq(&direct, "LeanString")?;
